@@ -641,3 +641,20 @@ CONTRACTS[U + 'pauli_diagonalize1'] = dict(
         ('lemma?', 'acq_diff2', ['Xor(%s, result[0])' % _g0, 'result[1]', 'Xor(%s, result[0])' % _g0, 'N', 'i0', 'i0'], 'optional'),
     ]},
 )
+
+# ------------------------------------------------------------------ C16: validity of the random pair
+CONTRACTS[U + 'random_pair'] = dict(
+    params=[('N', 'int')],
+    requires=['N >= 1'],
+    # whatever the generator draws (every draw is an unconstrained bit here): a non-identity string and a string anticommuting with it
+    ensures=['len(result[0]) == 2 * N', 'len(result[1]) == 2 * N', 'bits1(result[0])', 'bits1(result[1])',
+             'exists(c, 0, 2 * N, result[0][c] != 0)', 'anti(result[0], result[1], N)'],
+    modifies=[], returns=('int1 fresh', 'int1 fresh'),
+    loops={0: dict(invariant=['len(g1) == 2 * N', 'bits1(g1)', 'len(g2) == 2 * N', 'bits1(g2)'])},
+    hints={'return': [
+        ('lemma?', 'onsite_flat', ['g1', '0 - 1', 'N']),
+        ('lemma', 'acq_antisym', ['g1', 'g2', 'N']),
+        ('lemma', 'acq_antisym', ['g1', "at('if0.before', g2)", 'N'], 'optional'),
+        ('lemma?', 'acq_diff2', ["at('if0.before', g2)", 'g2', 'g1', 'N', 'i', 'i'], 'optional'),
+    ], 'if0.before': []},
+)
